@@ -1,5 +1,8 @@
 SPECIFICATION Spec
 CONSTANTS MaxTok = 8
+MaxGroups = 1000
+Letters <- LettersAll
+Modes <- ModesFree
 Coords <- CoordsSmall
 Radii <- RadiiSmall
 Rots <- RotsSmall
